@@ -105,6 +105,10 @@ func genC15(rng *rand.Rand, n int, emit func(Case), dist map[string]int) {
 				}
 				sent := append([]byte(nil), body.Bytes()...)
 				req := httptest.NewRequest(http.MethodPost, "/", &body)
+				if rng.Intn(3) == 0 {
+					req = httptest.NewRequest(http.MethodPost, "/", c15Reader{&body}) // a streamed upload: the length is not announced (ContentLength -1)
+					req.ContentLength = -1
+				}
 				if enc != "" {
 					req.Header.Set(echo.HeaderContentEncoding, enc)
 				}
